@@ -29,9 +29,11 @@ pub struct Boundary {
     pub ev_index: usize,
     /// number of clock reads (of this thread) before the boundary event
     pub clock_idx: u64,
-    /// the solver went on to start a timed sub-step after this boundary,
-    /// i.e. no verdict was reached *at* the boundary
+    /// the solver reached a scheduling point inside the numerical work of an iteration
+    /// (residual update, cone scaling, KKT update/solve, step) after this boundary, i.e. no
+    /// verdict ended the solve *at* the boundary.  Independent of timers and print spans.
     pub proceeded: bool,
+    #[allow(dead_code)]
     depth: usize,
     /// the status line of this boundary has been printed (its print span is over), so
     /// whatever timer starts or stops next reflects the solver's decision here
@@ -154,14 +156,6 @@ pub fn analyse(log: &[Ev]) -> Vec<SolveTrace> {
                         // print span (e.g. one wrapped around the bookkeeping itself) say
                         // nothing about the decision
                         fix_hi(&mut open, th, ps);
-                        if let Some(t) = open.get_mut(&th) {
-                            if let Some(b) = t.boundaries.last_mut() {
-                                // a sibling sub-step of the boundary's enclosing timer
-                                if b.decided && ps.stack.len() == b.depth {
-                                    b.proceeded = true;
-                                }
-                            }
-                        }
                         ps.pending_start = Some(k);
                     }
                     Label::TimerStop => {
@@ -208,6 +202,17 @@ pub fn analyse(log: &[Ev]) -> Vec<SolveTrace> {
                                     depth: ps.stack.len(),
                                     decided: false,
                                 });
+                            }
+                        }
+                    }
+                    Label::Yield => {
+                        // a scheduling point sits inside the numerical work of an iteration
+                        // (cone scaling, KKT update/solve, step): whatever the timers and the
+                        // print spans look like, the solver has gone on past the last boundary
+                        force_fix_hi(&mut open, th, ps);
+                        if let Some(t) = open.get_mut(&th) {
+                            if let Some(b) = t.boundaries.last_mut() {
+                                b.proceeded = true;
                             }
                         }
                     }
